@@ -321,6 +321,8 @@ elem!(D12D, 12, 4, drop);
 elem!(Q16D, 16, 16, drop);
 elem!(X24D, 24, 8, drop);
 elem!(A32D, 32, 32, drop);
+elem!(F40D, 40, 8, drop);
+elem!(S72, 72, 8, nodrop);
 elem!(A64D, 64, 64, drop);
 elem!(L160, 160, 8, nodrop);
 elem!(L160D, 160, 32, drop);
